@@ -243,8 +243,13 @@ def make_judges(ctx):
             name = getattr(ev.args[0], '__name__', None)
         elif ev.op in NPF and ev.kind in ('method', 'function'):
             name = ev.op
+        if ev.op == 'T' and ev.exc is None:
+            name = 'transpose'          # (the T attribute: an independent object like np.transpose(x))
         if name not in NPF or ev.exc is not None or (ev.kind == 'method' and ev.op == 'sort'):
             return
+        for p_ in U.u2_alias_problems(ev, Fxp):
+            # the result is an object of its own: a later in-place step on it (sort, an indexed store) must not reach the operand, nor the other way round
+            ctx.violation('result_shares_state', '%s: %s' % (name, p_[1]), ev, key='frame.alias')
         for p_ in U.u2_frame_problems(ev, Fxp):
             ctx.violation('operand_changed', '%s: %s' % (name, p_[1]), ev, key='frame.operand')
         for p_ in U.u2_container_problems(ev):
@@ -259,7 +264,7 @@ def floors(tier):
     cells += [('clip_bounds', b) for b in ('float/float', 'ndarray/ndarray', 'list/list', 'Fxp/Fxp', 'float/none', 'none/float')]
     cells += [('clip_bounds_other_format',), ('clip_value_method_fxp_bounds',), ('clip_min_max_keywords',), ('clip_narrow_numpy_bound', 'i'), ('clip_narrow_numpy_bound', 'u'), ('clip_narrow_numpy_bound', 'f'), ('clip_beyond_range', 's'), ('clip_beyond_range', 'u')]
     cells += [('edge_format', f) for f in ('sum', 'cumsum', 'prod', 'cumprod', 'dot', 'clip', 'max', 'sort')]
-    cells += [('acc_significant_bits>24', 'dot'), ('acc_significant_bits>11', 'dot'), ('acc_significant_bits>11', 'sum'), ('noncontiguous_operand',), ('value-method', 'prod'), ('value-method', 'sum'), ('value-method-integer-product-beyond-64-bits',), ('frame',), ('clip_int64_array_bounds_twice',)]
+    cells += [('acc_significant_bits>24', 'dot'), ('acc_significant_bits>11', 'dot'), ('acc_significant_bits>11', 'sum'), ('noncontiguous_operand',), ('value-method', 'prod'), ('value-method', 'sum'), ('value-method-integer-product-beyond-64-bits',), ('frame',), ('clip_int64_array_bounds_twice',), ('transpose-then-written',)]
     return cells
 
 
@@ -493,6 +498,26 @@ def run_case(case, ctx):
     _try(lambda: x.clip(a_max=amax))
     _try(lambda: np.clip(x, None, amax))
     _try(lambda: np.transpose(x))
+    if len(shape) == 2:
+        # a transposed object is a result like any other: sorting it in place / storing into it leaves the operand as it was (and the other way round);
+        # workload-level (the T attribute is not a call the monitor records)
+        for how_ in ('T', 'np.transpose', 'method'):
+            xs_ = mk()
+            before_ = np.asarray(xs_.val, dtype=object).tolist()
+            try:
+                t_ = xs_.T if how_ == 'T' else (np.transpose(xs_) if how_ == 'np.transpose' else xs_.transpose())
+                tb_ = np.asarray(t_.val, dtype=object).tolist()
+                t_.sort(axis=0)
+                t_[0, 0] = 0.0
+                after_ = np.asarray(xs_.val, dtype=object).tolist()
+                xs_.sort(axis=1)
+                xs_[0, 0] = 0.0
+            except Exception:
+                continue
+            if after_ != before_:
+                ctx.violation('operand_changed', 'an in-place sort of / store into the transpose obtained by %s changed the operand: %s -> %s' % (how_, before_, after_), key='frame.transpose_alias')
+            ctx.judged(('transpose-then-written', how_), True, None)
+            ctx.floor_hit(('transpose-then-written',))
     _try(lambda: x.transpose())
     perms = [(0,)] if len(shape) == 1 else [(0, 1), (1, 0)]
     for pm in perms:
